@@ -1,5 +1,679 @@
 package main
 
+import (
+	"bytes"
+	"crypto/sha256"
+	"encoding/hex"
+	"encoding/json"
+	"errors"
+	"fmt"
+	"io/fs"
+	"os"
+	"os/exec"
+	"path"
+	"path/filepath"
+	"sort"
+	"strings"
+	"syscall"
+	"time"
+
+	"verifsim/gen"
+	"verifsim/simrt"
+)
+
+// selftest <determinism|conformance|transparency|sensitivity> [options]
+// A failing self-test is a defect of the machinery: exit status 2.
 func selftest(args []string) error {
-	return machinery("selftest %v: not implemented yet", args)
+	switch args[0] {
+	case "sensitivity":
+		return selftestSensitivity(args[1:])
+	case "determinism":
+		return selftestDeterminism(args[1:])
+	case "conformance":
+		return selftestConformance(args[1:])
+	case "transparency":
+		return selftestTransparency(args[1:])
+	case "all":
+		for _, f := range []func([]string) error{selftestConformance, selftestTransparency, selftestDeterminism} {
+			if err := f(nil); err != nil {
+				return err
+			}
+		}
+		return nil
+	}
+	return machinery("unknown selftest %q", args[0])
+}
+
+// ---------------------------------------------------------------- sensitivity
+
+type mutantEntry struct {
+	Name        string  `json:"name"`
+	Property    string  `json:"property"`
+	Description string  `json:"description"`
+	SuitePasses *bool   `json:"suite_passes,omitempty"`
+	Detected    *bool   `json:"detected,omitempty"`
+	DetectS     float64 `json:"detect_s,omitempty"`
+	Class       string  `json:"class,omitempty"`
+}
+
+func copyTree(src, dst string) error {
+	return filepath.WalkDir(src, func(p string, d fs.DirEntry, err error) error {
+		if err != nil {
+			return err
+		}
+		rel, _ := filepath.Rel(src, p)
+		if d.IsDir() {
+			if d.Name() == ".git" {
+				return filepath.SkipDir
+			}
+			return os.MkdirAll(filepath.Join(dst, rel), 0o755)
+		}
+		if !d.Type().IsRegular() {
+			return nil
+		}
+		b, err := os.ReadFile(p)
+		if err != nil {
+			return err
+		}
+		return os.WriteFile(filepath.Join(dst, rel), b, 0o644)
+	})
+}
+
+// selftestSensitivity applies every mutants/*.patch (or seeded/*/patch.diff
+// with --seeded) to a scratch copy of the working tree and runs the owning
+// check against it.
+func selftestSensitivity(args []string) error {
+	suite, seeded := false, false
+	only := ""
+	budget := "90"
+	for i := 0; i < len(args); i++ {
+		switch args[i] {
+		case "--suite":
+			suite = true
+		case "--seeded":
+			seeded = true
+		case "--only":
+			i++
+			only = args[i]
+		case "--budget":
+			i++
+			budget = args[i]
+		}
+	}
+	verif := verifRoot()
+	var entries []*mutantEntry
+	indexPath := filepath.Join(verif, "mutants", "INDEX.json")
+	patchOf := func(e *mutantEntry) string { return filepath.Join(verif, "mutants", e.Name+".patch") }
+	if seeded {
+		indexPath = filepath.Join(verif, "seeded", "INDEX.json")
+		patchOf = func(e *mutantEntry) string { return filepath.Join(verif, "seeded", e.Name, "patch.diff") }
+	}
+	raw, err := os.ReadFile(indexPath)
+	if err != nil {
+		return machinery("%v", err)
+	}
+	if err := json.Unmarshal(raw, &entries); err != nil {
+		return machinery("%s: %v", indexPath, err)
+	}
+	self, _ := os.Executable()
+	type job struct{ e *mutantEntry }
+	results := make([]string, len(entries))
+	// the checks use all cores themselves: run mutants one after another
+	for i, e := range entries {
+		if only != "" && !strings.Contains(e.Name, only) {
+			continue
+		}
+		scratch, err := os.MkdirTemp("", "verifmut-")
+		if err != nil {
+			return machinery("%v", err)
+		}
+		tree := filepath.Join(scratch, "repo")
+		outDir := filepath.Join(scratch, "out")
+		os.MkdirAll(outDir, 0o755)
+		if err := copyTree(repoRoot(), tree); err != nil {
+			os.RemoveAll(scratch)
+			return machinery("copy: %v", err)
+		}
+		if o, err := run(tree, os.Environ(), "git", "apply", "--whitespace=nowarn", patchOf(e)); err != nil {
+			os.RemoveAll(scratch)
+			results[i] = fmt.Sprintf("%-40s PATCH DOES NOT APPLY: %s", e.Name, firstLines(o, 2))
+			fmt.Println(results[i])
+			continue
+		}
+		if suite {
+			o, err := run(tree, goEnv(), "go", "test", "-mod=mod", "-vet=off", "-count=1", "-timeout", "25m", "./...")
+			ok := err == nil
+			e.SuitePasses = &ok
+			if !ok {
+				fmt.Printf("%-40s suite FAILS: %s\n", e.Name, firstLines(tail(o, 600), 6))
+			}
+		}
+		t0 := time.Now()
+		cmd := exec.Command(self, "check", e.Property, "quick")
+		cmd.Env = append(os.Environ(), "VERIF_REPO="+tree, "VERIF_OUT="+outDir, "VERIF_BUDGET_S="+budget, "VERIF_ROOT="+verif)
+		var out bytes.Buffer
+		cmd.Stdout, cmd.Stderr = &out, &out
+		err = cmd.Run()
+		code := 0
+		var ee *exec.ExitError
+		if errors.As(err, &ee) {
+			code = ee.ExitCode()
+		}
+		det := code == 1 && strings.Contains(out.String(), "VIOLATION property="+e.Property)
+		e.Detected = &det
+		e.DetectS = time.Since(t0).Seconds()
+		e.Class = ""
+		for _, l := range strings.Split(out.String(), "\n") {
+			if strings.HasPrefix(strings.TrimSpace(l), "class:") && e.Class == "" {
+				e.Class = strings.TrimSpace(strings.TrimPrefix(strings.TrimSpace(l), "class:"))
+			}
+		}
+		status := "MISSED"
+		if det {
+			status = "caught"
+		}
+		if code == 2 {
+			status = "MACHINERY(exit 2): " + firstLines(tail(out.String(), 400), 3)
+		}
+		sp := ""
+		if e.SuitePasses != nil {
+			sp = fmt.Sprintf(" suite_passes=%v", *e.SuitePasses)
+		}
+		results[i] = fmt.Sprintf("%-40s %s %-7s %5.1fs%s  %s", e.Name, e.Property, status, e.DetectS, sp, e.Class)
+		fmt.Println(results[i])
+		os.RemoveAll(scratch)
+	}
+	if only == "" {
+		raw, _ := json.MarshalIndent(entries, "", " ")
+		os.WriteFile(indexPath, raw, 0o644)
+	}
+	return nil
+}
+
+// ---------------------------------------------------------------- conformance
+
+// selftestConformance applies seeded operation sequences to MemFS and to a
+// real temporary directory and compares error class, kind, size and content
+// step by step.
+func selftestConformance(args []string) error {
+	rng := gen.NewRng(envSeed() + 77)
+	root, err := os.MkdirTemp("", "verifconf-")
+	if err != nil {
+		return machinery("%v", err)
+	}
+	defer os.RemoveAll(root)
+	class := func(err error) string {
+		if err == nil {
+			return "ok"
+		}
+		var en syscall.Errno
+		if errors.As(err, &en) {
+			switch en {
+			case syscall.ENOENT:
+				return "ENOENT"
+			case syscall.ENOTDIR:
+				return "ENOTDIR"
+			case syscall.EISDIR:
+				return "EISDIR"
+			case syscall.EEXIST:
+				return "EEXIST"
+			case syscall.ENOTEMPTY:
+				return "ENOTEMPTY"
+			case syscall.EINVAL:
+				return "EINVAL"
+			}
+			return en.Error()
+		}
+		return "other:" + err.Error()
+	}
+	steps, seqs := 0, 300
+	names := []string{"a", "b", "d", "d/x", "d/y", "d/e", "d/e/z", "f.txt", "d/../a", "./b", "d/./x", "a/under-file", "missing/deep/file"}
+	for s := 0; s < seqs; s++ {
+		real := filepath.Join(root, fmt.Sprintf("s%d", s))
+		os.MkdirAll(real, 0o755)
+		w := simrt.NewWorld(&simrt.WorldSpec{Files: []simrt.FileSpec{{Path: "/r", Dir: true}}, Cwd: "/r"})
+		simrt.W = w
+		for k := 0; k < 40; k++ {
+			steps++
+			n := rng.Pick(names)
+			sp, rp := path.Join("/r", n), filepath.Join(real, n)
+			// keep ".." and "." components: Join cleans, so add them back textually
+			if strings.Contains(n, "..") || strings.HasPrefix(n, "./") || strings.Contains(n, "/./") {
+				sp, rp = "/r/"+n, real+"/"+n
+			}
+			var e1, e2 error
+			var d1, d2 string
+			op := rng.Intn(8)
+			switch op {
+			case 0:
+				data := []byte(fmt.Sprintf("data-%d", rng.Intn(1000)))
+				e1 = simrt.WriteFile(sp, data, 0o644)
+				e2 = os.WriteFile(rp, data, 0o644)
+			case 1:
+				var b1, b2 []byte
+				b1, e1 = simrt.ReadFile(sp)
+				b2, e2 = os.ReadFile(rp)
+				d1, d2 = string(b1), string(b2)
+			case 2:
+				var i1, i2 fs.FileInfo
+				i1, e1 = simrt.Stat(sp)
+				i2, e2 = os.Stat(rp)
+				if e1 == nil && e2 == nil {
+					d1 = fmt.Sprintf("%v %d", i1.IsDir(), sizeIfFile(i1))
+					d2 = fmt.Sprintf("%v %d", i2.IsDir(), sizeIfFile(i2))
+				}
+			case 3:
+				e1 = simrt.Mkdir(sp, 0o755)
+				e2 = os.Mkdir(rp, 0o755)
+			case 4:
+				e1 = simrt.MkdirAll(sp, 0o755)
+				e2 = os.MkdirAll(rp, 0o755)
+			case 5:
+				e1 = simrt.Remove(sp)
+				e2 = os.Remove(rp)
+			case 6:
+				m := rng.Pick(names)
+				e1 = simrt.Rename(sp, path.Join("/r", m))
+				e2 = os.Rename(rp, filepath.Join(real, m))
+			case 7:
+				var l1, l2 []fs.DirEntry
+				l1, e1 = simrt.ReadDir(sp)
+				l2, e2 = os.ReadDir(rp)
+				a, b := []string{}, []string{}
+				for _, x := range l1 {
+					a = append(a, fmt.Sprintf("%s:%v", x.Name(), x.IsDir()))
+				}
+				for _, x := range l2 {
+					b = append(b, fmt.Sprintf("%s:%v", x.Name(), x.IsDir()))
+				}
+				d1, d2 = strings.Join(a, ","), strings.Join(b, ",")
+			}
+			c1, c2 := class(e1), class(e2)
+			// renaming a path onto itself or into its own subtree: kernel says EINVAL for the latter; MemFS does not model it
+			if op == 6 && (c2 == "EINVAL" || c1 != c2 && strings.HasPrefix(c2, "other")) {
+				simrt.W = nil
+				goto nextSeq
+			}
+			if c1 != c2 || d1 != d2 {
+				simrt.W = nil
+				return machinery("MemFS conformance: sequence %d step %d op %d on %q: MemFS %s %q, kernel %s %q", s, k, op, n, c1, d1, c2, d2)
+			}
+		}
+	nextSeq:
+		simrt.W = nil
+	}
+	fmt.Printf("selftest conformance: %d sequences, %d steps compared MemFS vs kernel: identical\n", seqs, steps)
+	return nil
+}
+
+func sizeIfFile(i fs.FileInfo) int64 {
+	if i.IsDir() {
+		return 0
+	}
+	return i.Size()
+}
+
+// ---------------------------------------------------------------- transparency
+
+// selftestTransparency materialises fault-free simulated worlds in a real
+// directory and compares the un-instrumented library / command with what the
+// instrumented code produced in simulation.
+func selftestTransparency(args []string) error {
+	env, err := NewEnv()
+	if err != nil {
+		return err
+	}
+	defer env.Close()
+	// un-instrumented driver: a copy of the working tree plus a tiny main
+	drv := filepath.Join(env.Dir, "plain")
+	if err := copyTree(env.Repo, drv); err != nil {
+		return machinery("%v", err)
+	}
+	os.MkdirAll(filepath.Join(drv, "zz_driver"), 0o755)
+	mod := env.Report.Module
+	driver := `package main
+
+import (
+	"encoding/json"
+	"os"
+
+	"` + mod + `/converters/bash"
+	"` + mod + `/converters/batch"
+	"` + mod + `/transpiler"
+)
+
+func main() {
+	var conv transpiler.Converter = bash.New()
+	if os.Args[2] == "batch" {
+		conv = batch.New()
+	}
+	t := transpiler.New()
+	out := map[string]any{}
+	func() {
+		defer func() {
+			if r := recover(); r != nil {
+				out["panic"] = true
+			}
+		}()
+		s, err := t.Transpile(os.Args[1], conv)
+		out["script"] = s
+		out["err"] = err != nil
+	}()
+	json.NewEncoder(os.Stdout).Encode(out)
+}
+`
+	os.WriteFile(filepath.Join(drv, "zz_driver", "main.go"), []byte(driver), 0o644)
+	exeDir := filepath.Join(env.Dir, "realexe")
+	os.MkdirAll(filepath.Join(exeDir, "std"), 0o755)
+	for n, b := range env.Std {
+		os.WriteFile(filepath.Join(exeDir, "std", n), b, 0o644)
+	}
+	if o, err := run(drv, goEnv(), "go", "build", "-o", filepath.Join(exeDir, "driver"), "./zz_driver"); err != nil {
+		return machinery("driver build: %v %s", err, tail(o, 800))
+	}
+	if o, err := run(drv, goEnv(), "go", "build", "-o", filepath.Join(exeDir, "tsh"), "."); err != nil {
+		return machinery("tsh build: %v %s", err, tail(o, 800))
+	}
+	rng := gen.NewRng(envSeed() + 99)
+	corpus := gen.HarvestCorpus(env.Repo)
+	nLib, nTsh := 120, 60
+	// --- library
+	cases := []simrt.Case{}
+	worlds := []*gen.GenWorld{}
+	for i := 0; i < nLib; i++ {
+		gw := gen.NewWorld(rng.Sub(), gen.WorldOpts{MaxFiles: 4, StdPct: 10, AllowStd: true, Hostile: true, Corpus: corpus, CorpusPct: 30, SmallFeats: true})
+		if rng.Chance(30) {
+			data, _ := gen.Corrupt(rng, gw.Get(gw.Main))
+			gw.Set(gw.Main, data)
+		}
+		worlds = append(worlds, gw)
+		mount := filepath.Join(env.Dir, "realfs", fmt.Sprintf("w%d", i))
+		spec := simrt.WorldSpec{Files: c13World(gw, env, mount, exeDir), Cwd: mount, Exe: filepath.Join(exeDir, "driver"), MapMode: "canonical"}
+		cases = append(cases, simrt.Case{World: spec, Path: filepath.Join(mount, gw.Main), Target: rng.Pick([]string{"bash", "batch"}), ReturnScript: true})
+	}
+	res, err := env.RunCases(cases)
+	if err != nil {
+		return err
+	}
+	for i, c := range cases {
+		for _, f := range c.World.Files {
+			if strings.HasPrefix(f.Path, exeDir) {
+				continue
+			}
+			os.MkdirAll(filepath.Dir(f.Path), 0o755)
+			os.WriteFile(f.Path, f.Data, 0o644)
+		}
+		cmd := exec.Command(filepath.Join(exeDir, "driver"), c.Path, c.Target)
+		cmd.Dir = c.World.Cwd
+		var so bytes.Buffer
+		cmd.Stdout = &so
+		cmd.Run()
+		var out struct {
+			Script string `json:"script"`
+			Err    bool   `json:"err"`
+			Panic  bool   `json:"panic"`
+		}
+		json.Unmarshal(so.Bytes(), &out)
+		simKind := res[i].Kind
+		realKind := "script"
+		if out.Panic {
+			realKind = "panic"
+		} else if out.Err {
+			realKind = "error"
+		}
+		simScript := ""
+		if res[i].Script != nil {
+			simScript = string(*res[i].Script)
+		}
+		if simKind != realKind || simScript != out.Script {
+			return machinery("transparency: world %d (%s): instrumented code in simulation answered %s (%d bytes), un-instrumented code on the real file system answered %s (%d bytes)",
+				i, worlds[i].Shape, simKind, len(simScript), realKind, len(out.Script))
+		}
+	}
+	// --- command
+	refs := map[string]*c19Ref{}
+	r := &Run{Env: env, Known: &KnownFile{}, KnownHit: map[string]int{}, seenCls: map[string]bool{}}
+	mism := 0
+	for i := 0; i < nTsh; i++ {
+		inv := c19Gen(r, rng.Sub(), corpus)
+		// relocate the simulated world under a real directory
+		base := filepath.Join(env.Dir, "realfs", fmt.Sprintf("t%d", i))
+		re := func(p string) string {
+			if filepath.IsAbs(p) {
+				return filepath.Join(base, p)
+			}
+			return p
+		}
+		spec := inv.Spec
+		spec.Files = nil
+		for _, f := range inv.Spec.Files {
+			if strings.Contains(f.Path, "/std/") || strings.HasSuffix(f.Path, "/tsh") {
+				continue
+			}
+			spec.Files = append(spec.Files, simrt.FileSpec{Path: re(f.Path), Dir: f.Dir, Data: f.Data})
+		}
+		for n, b := range env.Std {
+			spec.Files = append(spec.Files, simrt.FileSpec{Path: filepath.Join(exeDir, "std", n), Data: b})
+		}
+		spec.Cwd = re(inv.Spec.Cwd)
+		spec.Exe = filepath.Join(exeDir, "tsh")
+		spec.Args = append([]string{}, inv.Spec.Args...)
+		for k := 1; k < len(spec.Args); k++ {
+			if filepath.IsAbs(spec.Args[k]) {
+				spec.Args[k] = re(spec.Args[k])
+			}
+		}
+		spec.MapMode = "canonical"
+		spec.Faults = nil
+		sim, err := env.RunTsh(&spec, "")
+		if err != nil {
+			return err
+		}
+		// real run
+		for _, f := range spec.Files {
+			if strings.HasPrefix(f.Path, exeDir) {
+				continue
+			}
+			if f.Dir {
+				os.MkdirAll(f.Path, 0o755)
+			} else {
+				os.MkdirAll(filepath.Dir(f.Path), 0o755)
+				os.WriteFile(f.Path, f.Data, 0o644)
+			}
+		}
+		os.MkdirAll(spec.Cwd, 0o755)
+		cmd := exec.Command(filepath.Join(exeDir, "tsh"), spec.Args[1:]...)
+		cmd.Dir = spec.Cwd
+		runErr := cmd.Run()
+		realExit := 0
+		var ee *exec.ExitError
+		if errors.As(runErr, &ee) {
+			realExit = ee.ExitCode()
+		}
+		if realExit != sim.Exit {
+			return machinery("transparency: tsh %q: exit %d in simulation, %d for real", spec.Args, sim.Exit, realExit)
+		}
+		final := finalImage(sim.Journal)
+		for p, d := range final {
+			if strings.HasPrefix(p, exeDir) {
+				continue
+			}
+			b, err := os.ReadFile(p)
+			switch d.Res {
+			case "file":
+				if err != nil || string(b) != string(d.Data) {
+					mism++
+					return machinery("transparency: tsh %q: file %s differs between simulation (%d bytes) and reality (%v, %d bytes)", spec.Args, p, len(d.Data), err, len(b))
+				}
+			case "absent":
+				if err == nil {
+					return machinery("transparency: tsh %q: file %s absent in simulation but present for real", spec.Args, p)
+				}
+			}
+		}
+		_ = refs
+	}
+	fmt.Printf("selftest transparency: %d library worlds and %d tsh invocations: instrumented-in-simulation == un-instrumented-on-real-FS\n", nLib, nTsh)
+	return nil
+}
+
+// ---------------------------------------------------------------- determinism
+
+func digestOf(v any) string {
+	b, _ := json.Marshal(v)
+	h := sha256.Sum256(b)
+	return hex.EncodeToString(h[:8])
+}
+
+// selftestDeterminism executes the same plans under different worker counts
+// and GOMAXPROCS values, and single plans many times in many processes; all
+// results (including trace digests) must be identical.
+func selftestDeterminism(args []string) error {
+	env, err := NewEnv()
+	if err != nil {
+		return err
+	}
+	defer env.Close()
+	seeds := 16
+	if len(args) > 0 {
+		fmt.Sscan(args[0], &seeds)
+	}
+	corpus := gen.HarvestCorpus(env.Repo)
+	known := &KnownFile{}
+	configs := []struct {
+		workers int
+		gmp     string
+	}{{1, "1"}, {4, "4"}, {16, "16"}}
+	total := 0
+	for s := 0; s < seeds; s++ {
+		seed := envSeed()*1000 + uint64(s)
+		// engine A, cases (C13 phase-1 style)
+		mkCases := func() []simrt.Case {
+			rng := gen.NewRng(seed)
+			cs := []simrt.Case{}
+			for i := 0; i < 24; i++ {
+				gw := gen.NewWorld(rng.Sub(), gen.WorldOpts{MaxFiles: 4, StdPct: 5, AllowStd: true, Hostile: true, Corpus: corpus, CorpusPct: 30, SmallFeats: true})
+				if rng.Chance(40) {
+					d, _ := gen.Corrupt(rng, gw.Get(gw.Main))
+					gw.Set(gw.Main, d)
+				}
+				b := c13Budgets()
+				spec := simrt.WorldSpec{Files: c13World(gw, env, "/sim/m", "/sim/x"), Cwd: "/sim/m", Exe: "/sim/x/tsh", MapMode: rng.Pick([]string{"canonical", "shuffle", "reversed"}), MapSeed: rng.U64(), Budgets: &b}
+				if rng.Chance(50) {
+					spec.Faults = []*simrt.Fault{{Seq: 1 + rng.Intn(8), Kind: rng.Pick([]string{simrt.KENOENT, simrt.KEIO, simrt.KTORN, simrt.KFLIP}), N: rng.Intn(50), B: 4}}
+				}
+				cs = append(cs, simrt.Case{World: spec, Path: "/sim/m/" + gw.Main, Target: rng.Pick([]string{"bash", "batch"})})
+			}
+			return cs
+		}
+		mkHists := func() []*c14Hist {
+			rng := gen.NewRng(seed + 5)
+			r := &Run{Env: env, Tier: "quick"}
+			hs := []*c14Hist{}
+			for i := 0; i < 6; i++ {
+				hs = append(hs, c14Gen(r, rng.Sub(), corpus))
+			}
+			return hs
+		}
+		mkInvs := func() []*c19Inv {
+			rng := gen.NewRng(seed + 9)
+			r := &Run{Env: env}
+			out := []*c19Inv{}
+			for i := 0; i < 12; i++ {
+				inv := c19Gen(r, rng.Sub(), corpus)
+				if rng.Chance(50) {
+					inv.Spec.Faults = []*simrt.Fault{{Seq: 1 + rng.Intn(20), Kind: rng.Pick([]string{simrt.KENOENT, simrt.KEIO, simrt.KEACCES, simrt.KENOSPC})}}
+				}
+				out = append(out, inv)
+			}
+			return out
+		}
+		var ref string
+		for ci, cfg := range configs {
+			env.Workers = cfg.workers
+			workerGOMAXPROCS = cfg.gmp
+			parts := []string{}
+			res, err := env.RunCases(mkCases())
+			if err != nil {
+				return err
+			}
+			parts = append(parts, digestOf(res))
+			for _, h := range mkHists() {
+				conc, _ := h.materialise(env)
+				hr, fatal, err := env.RunHistory(conc)
+				if err != nil {
+					return err
+				}
+				for i := range hr {
+					hr[i].Trace = nil
+				}
+				parts = append(parts, digestOf(hr)+fatal)
+			}
+			invs := mkInvs()
+			outs := make([]string, len(invs))
+			errs := make([]error, len(invs))
+			parallel(len(invs), cfg.workers, func(i int) {
+				tr, err := env.RunTsh(&invs[i].Spec, "")
+				if err != nil {
+					errs[i] = err
+					return
+				}
+				outs[i] = fmt.Sprint(tr.Exit) + digestOf(tr.Journal)
+			})
+			for _, e := range errs {
+				if e != nil {
+					return e
+				}
+			}
+			parts = append(parts, outs...)
+			// engine B
+			rngB := gen.NewRng(seed + 13)
+			rr := &Run{Env: env, Known: known}
+			for i := 0; i < 6; i++ {
+				h := c17Gen(rngB.Sub(), []string{"base", "extended"}[i%2])
+				k, d, err := c17Run(rr, h, rngB.U64(), nil)
+				if err != nil {
+					return err
+				}
+				// details contain temp-dir names: compare kind and the model-side part only
+				if j := strings.Index(d, "(stderr"); j >= 0 {
+					d = d[:j]
+				}
+				parts = append(parts, k+"|"+d)
+			}
+			total += len(parts)
+			dg := digestOf(parts)
+			if ci == 0 {
+				ref = dg
+			} else if dg != ref {
+				return machinery("determinism: seed %d: results differ between worker/GOMAXPROCS configurations (%s vs %s)", seed, ref, dg)
+			}
+		}
+	}
+	// single plans, 30 processes each
+	env.Workers = 16
+	rng := gen.NewRng(envSeed() + 4242)
+	for p := 0; p < 8; p++ {
+		r := &Run{Env: env, Tier: "quick"}
+		h := c14Gen(r, rng.Sub(), corpus)
+		conc, _ := h.materialise(env)
+		digs := make([]string, 30)
+		errs := make([]error, 30)
+		parallel(30, 16, func(i int) {
+			hr, fatal, err := env.RunHistory(conc)
+			errs[i] = err
+			digs[i] = digestOf(hr) + fatal
+		})
+		for i := range digs {
+			if errs[i] != nil {
+				return errs[i]
+			}
+			if digs[i] != digs[0] {
+				return machinery("determinism: one plan executed in 30 processes gave different results (run 0 %s, run %d %s)", digs[0], i, digs[i])
+			}
+		}
+	}
+	sort.Strings(nil)
+	fmt.Printf("selftest determinism: %d seeds x 3 worker/GOMAXPROCS configurations (%d result items each compared), 8 plans x 30 processes: identical\n", seeds, total/3)
+	return nil
 }
